@@ -7,6 +7,8 @@ from pyvc.values import *   # pylint: disable=wildcard-import
 _here = os.path.dirname(__file__)
 _spec = importlib.util.spec_from_file_location('io_common', os.path.join(_here, 'io_common.py'))
 io_common = importlib.util.module_from_spec(_spec); _spec.loader.exec_module(io_common)
+_spec2 = importlib.util.spec_from_file_location('rangeiter_common', os.path.join(_here, 'rangeiter_common.py'))
+rangeiter_common = importlib.util.module_from_spec(_spec2); _spec2.loader.exec_module(rangeiter_common)
 IO, ITER = io_common.IO, io_common.ITER
 P = 'C09'
 
@@ -28,6 +30,7 @@ def _bind_shard_result(it, env, old):
 
 def register(R):
   io_common.register(R)
+  rangeiter_common.register(R, ['C09', 'C12'], 'bounded_range_iterator')
 
   # ---- SequenceDataSource.shard ------------------------------------------------------
   R.add(Contract(
@@ -132,6 +135,51 @@ def register(R):
                    shard_index='self.config._shard_state.shard_index', num_shards='self.config._shard_state.num_shards',
                    n='len(self._it.src)'),
       bounded='bounded_sharded_iterable'))
+
+  # ---- MergedSequences: indexing like the concatenation ----------------------------------------
+  @R.spec
+  def item(it, a, k):
+    return VOpaque(item_of(it.to_obj(a[0]), it.to_int(a[1])))
+
+  R.cls('MergedSequences', dict(_sequences='seq[obj]', _seq_idxs='seq[int]', _max_batch_size='int'))
+  R.cls('_MergedSequenceIndex', dict(seq_idx='int', idx='int?'), frozen=True)
+  # representation invariant: _seq_idxs are the prefix sums of the sub-sequence lengths
+  MS_INV = ['len(self._seq_idxs) == len(self._sequences) + 1', 'self._seq_idxs[0] == 0',
+            'forall(lambda t: self._seq_idxs[t + 1] - self._seq_idxs[t] == len(self._sequences[t])'
+            ' and len(self._sequences[t]) >= 0, 0, len(self._sequences))',
+            'forall(lambda a, b: implies(0 <= a and a <= b and b < len(self._seq_idxs), self._seq_idxs[a] <= self._seq_idxs[b]))']
+  NORM = 'ite(index < 0, self._seq_idxs[len(self._sequences)] + index, index)'
+  R.add(Contract(
+      f'{ITER}::MergedSequences.__len__', P, types=dict(self='MergedSequences'), ret='int', requires=MS_INV,
+      ensures=['result == self._seq_idxs[len(self._sequences)]'], bounded='bounded_merged'))
+  R.add(Contract(
+      f'{ITER}::MergedSequences._index', P, types=dict(self='MergedSequences', index='int'), ret='_MergedSequenceIndex',
+      requires=MS_INV,
+      ensures=[
+          # before the beginning: an address that no sub-sequence has (the caller turns it into IndexError)
+          f'implies({NORM} < 0, result.seq_idx == -1 and result.idx is not None and result.idx == {NORM} - self._seq_idxs[len(self._sequences)])',
+          # inside the range: (sub-sequence, offset) addresses exactly that element of the concatenation
+          f'implies(0 <= {NORM} and {NORM} < self._seq_idxs[len(self._sequences)], 0 <= result.seq_idx and result.seq_idx < len(self._sequences)'
+          f' and result.idx is not None and self._seq_idxs[result.seq_idx] + result.idx == {NORM}'
+          ' and 0 <= result.idx and result.idx < len(self._sequences[result.seq_idx]))',
+          # one past the end (used as a slice stop)
+          f'implies({NORM} == self._seq_idxs[len(self._sequences)], result.seq_idx == len(self._sequences) and result.idx == 0)',
+          f'implies({NORM} > self._seq_idxs[len(self._sequences)], result.seq_idx == len(self._sequences) and result.idx is None)',
+      ],
+      loops={0: dict(invariant=['0 <= idx_seq and idx_seq < len(indices)', 'indices[idx_seq] == index',
+                                'indices is self._seq_idxs'])},
+      witness=dict(index='index'), bounded='bounded_merged'))
+
+  L_ = 'self._seq_idxs[len(self._sequences)]'
+  R.add(Contract(
+      f'{ITER}::MergedSequences.__getitem__', P, variant='int', types=dict(self='MergedSequences', index='int'), ret='obj',
+      requires=MS_INV,
+      raises={'IndexError': f'not (-{L_} <= index and index < {L_})'},
+      # element `index` of the concatenation: the element at offset index - P[s] of the unique
+      # sub-sequence s whose span [P[s], P[s+1]) contains it (negative indices count from the end)
+      ensures=[f'exists(lambda s: 0 <= s and s < len(self._sequences) and self._seq_idxs[s] <= {NORM} and {NORM} < self._seq_idxs[s + 1]'
+               f' and result is item(self._sequences[s], {NORM} - self._seq_idxs[s]))'],
+      witness=dict(index='index'), bounded='bounded_merged'))
 
   # ---- partition lemmas over the contract's spec functions only ---------------------------
   tys = dict(s='int', e='int', i='int', k='int')
